@@ -540,6 +540,12 @@ class Runner(object):
         elif k == "restart":
             self._teardown()
             self._startup(op["t"])
+        elif k == "softrestart":
+            # the same instant for a server that is NOT restarted: every client drops
+            for c in list(self.conns):
+                p = self.conns.pop(c)
+                p.onClose(True, None, None)
+            self.now = op["t"] / float(TICKS)
         else:
             raise ValueError(op)
 
@@ -559,7 +565,7 @@ def run_history(history, reader=False, timer=False, dumps="end"):
         for i, op in enumerate(history):
             ev = r.run_op(op)
             d = None
-            if dumps == "all" and op["op"] not in ("crash", "dump") and not r.down:
+            if dumps == "all" and op["op"] not in ("crash", "dump") and not r.down and not op.get("_nodump"):
                 d = r.dump()
             res.append((op, ev, d))
         final = r.dump() if not r.down else None
